@@ -4,6 +4,8 @@
 //   mode c11: observers (emptyQueue / waitFor) against enqueuers and process/processOne/takeEvent/clearEvents
 #include "con_common.h"
 
+#include <eventpp/utilities/orderedqueuelist.h>
+
 #include <memory>
 #include <set>
 #include <sstream>
@@ -22,7 +24,7 @@ enum OpKind {
 //   WAITFOR: a = duration code;  WAITLOOP: a = 0 wait / 1 waitFor, b = duration code, c = drain style (0 process, 1 processOne loop, 2 takeEvent loop)
 //   any consuming op: b = event id for which the listener throws (fault), or -1... stored as b+1 (0 = none) in field d for consumers
 enum { U_TASKS = 0, U_OBJ = 1, U_KEYS = 2, U_FILL = 3 };
-enum { OBJ_EVENTQUEUE = 0, OBJ_HETER = 1 };
+enum { OBJ_EVENTQUEUE = 0, OBJ_HETER = 1, OBJ_ORDERED = 2 };
 enum { MAXEV = 64, T_EV = 2, STOP_ID = MAXEV - 1 };
 
 const char * opName(int k)
@@ -97,7 +99,7 @@ struct Counters
 	uint64_t waitsReturned = 0, waitForTrue = 0, waitForFalse = 0, terminalWithBlockedWaiter = 0, terminalBlockedLegit = 0, earlyReturnChecks = 0,
 		dqnScopes = 0, dqnDestroyedWithPending = 0, overlapRuns = 0;
 	uint64_t observations = 0, observedEmptyTrue = 0, observedEmptyDuringDispatch = 0, oracleEventsChecked = 0;
-	uint64_t perObj[2] = { 0, 0 };
+	uint64_t perObj[3] = { 0, 0, 0 };
 } counters;
 
 struct QPol
@@ -109,6 +111,12 @@ struct HPol
 {
 	using Threading = sim::SimThreading;
 };
+// the real OrderedQueueList behind the list seam: every operation on the member lists is a scheduling point
+struct QPolOrdered
+{
+	using Threading = sim::SimThreading;
+	template <typename T> using QueueList = sim::SimListT<T, eventpp::OrderedQueueList<T> >;
+};
 
 // ------------------------------------------------------------------------------------------- adapters
 struct ListenerSink
@@ -118,11 +126,12 @@ struct ListenerSink
 	virtual ~ListenerSink() {}
 };
 
-struct EQAdapter
+template <typename Pol, int KIND>
+struct EQAdapterT
 {
-	using Q = eventpp::EventQueue<int, void (int, const Ev &), QPol>;
-	using DQN = Q::DisableQueueNotify;
-	enum { kind = OBJ_EVENTQUEUE };
+	using Q = eventpp::EventQueue<int, void (int, const Ev &), Pol>;
+	using DQN = typename Q::DisableQueueNotify;
+	enum { kind = KIND };
 	Q * q;
 	static bool supports(int k) { return k >= 1 && k < O_KINDS; }
 	void setup(ListenerSink * sink, int keys)
@@ -135,8 +144,8 @@ struct EQAdapter
 	bool processOne() { return q->processOne(); }
 	bool processIf(ListenerSink * sink, int mask) { return q->processIf([sink, mask](int, const Ev & e) { return sink->onPredicate(e.id, &e, mask); }); }
 	bool processUntil(ListenerSink * sink, int mask) { return q->processUntil([sink, mask](int, const Ev & e) { return sink->onPredicate(e.id, &e, mask); }); }
-	bool take(int & id, int & val) { Q::QueuedEvent qe; if(!q->takeEvent(&qe)) return false; id = std::get<1>(qe.arguments).id; val = std::get<1>(qe.arguments).val; return true; }
-	bool peek(int & id, int & val) { Q::QueuedEvent qe; if(!q->peekEvent(&qe)) return false; id = std::get<1>(qe.arguments).id; val = std::get<1>(qe.arguments).val; return true; }
+	bool take(int & id, int & val) { typename Q::QueuedEvent qe; if(!q->takeEvent(&qe)) return false; id = std::get<1>(qe.arguments).id; val = std::get<1>(qe.arguments).val; return true; }
+	bool peek(int & id, int & val) { typename Q::QueuedEvent qe; if(!q->peekEvent(&qe)) return false; id = std::get<1>(qe.arguments).id; val = std::get<1>(qe.arguments).val; return true; }
 	void clear() { q->clearEvents(); }
 	bool emptyQueue() { return q->emptyQueue(); }
 	void wait() { q->wait(); }
@@ -144,6 +153,9 @@ struct EQAdapter
 	void * makeDqn() { return new DQN(q); }
 	void freeDqn(void * p) { delete (DQN *)p; }
 };
+
+typedef EQAdapterT<QPol, OBJ_EVENTQUEUE> EQAdapter;
+typedef EQAdapterT<QPolOrdered, OBJ_ORDERED> EQOrderedAdapter;
 
 struct HQAdapter
 {
@@ -703,7 +715,7 @@ struct Harness : ListenerSink, EvHooks
 			if(k == O_PROCESS_IF) orderPreserving = false;
 			if(k == O_PROCESS || k == O_PROCESS_ONE || k == O_PROCESS_IF || k == O_PROCESS_UNTIL || k == O_TAKE || k == O_CLEAR) consumers.insert((int)t);
 		}
-		if(consumers.size() == 1 && orderPreserving && mode == 6) {
+		if(consumers.size() == 1 && orderPreserving && mode == 6 && A::kind == OBJ_EVENTQUEUE) {   // (an ordered queue list dispatches by key, not by arrival)
 			++counters.fifoChecked;
 			int lastOfProducer[MAXT];
 			for(int i = 0; i < MAXT; ++i) lastOfProducer[i] = -1;
@@ -773,8 +785,9 @@ void generate(uint64_t seed, Plan & plan)
 	Rng rng(seed);
 	con::chooseStrategy(rng, plan);
 	const int m = modeNumber();
-	const bool heter = rng.chance(1, 4);
-	plan.user(U_OBJ) = heter ? OBJ_HETER : OBJ_EVENTQUEUE;
+	const uint32_t objr = rng.below(100);
+	const bool heter = objr < 25;
+	plan.user(U_OBJ) = heter ? OBJ_HETER : objr < 40 ? OBJ_ORDERED : OBJ_EVENTQUEUE;
 	plan.user(U_KEYS) = 1 + (int)rng.below(2);
 	plan.user(U_FILL) = (int)rng.below(3);
 	plan.cfg[CFG_QUANTUM] = (int)rng.below(3);
@@ -867,15 +880,16 @@ void execute(const Plan & plan, RunOut & out)
 	con::installHooks();
 	const int m = modeNumber();
 	if(plan.user(U_OBJ) == OBJ_HETER) runWith<HQAdapter>(plan, m, out);
+	else if(plan.user(U_OBJ) == OBJ_ORDERED) runWith<EQOrderedAdapter>(plan, m, out);
 	else runWith<EQAdapter>(plan, m, out);
 	++counters.runs[m == 6 ? 0 : m == 7 ? 1 : 2];
-	++counters.perObj[plan.user(U_OBJ) == OBJ_HETER ? 1 : 0];
+	++counters.perObj[plan.user(U_OBJ) == OBJ_HETER ? 1 : plan.user(U_OBJ) == OBJ_ORDERED ? 2 : 0];
 }
 
 std::string describe(const Plan & plan)
 {
 	std::ostringstream o;
-	o << (plan.user(U_OBJ) == OBJ_HETER ? "HeterEventQueue" : "EventQueue/SimList") << " strat=" << plan.cfg[CFG_STRATEGY] << "/" << plan.cfg[CFG_DEPTH]
+	o << (plan.user(U_OBJ) == OBJ_HETER ? "HeterEventQueue" : plan.user(U_OBJ) == OBJ_ORDERED ? "EventQueue/OrderedQueueList behind the list seam" : "EventQueue/SimList") << " strat=" << plan.cfg[CFG_STRATEGY] << "/" << plan.cfg[CFG_DEPTH]
 	  << " quantum=" << plan.cfg[CFG_QUANTUM] << (plan.cfg[CFG_SPURIOUS] ? " spurious" : "");
 	for(size_t t = 0; t < plan.tasks.size(); ++t) {
 		o << " | t" << t << ":";
@@ -909,7 +923,7 @@ void statsJson(std::string & out)
 	  << ",\"preempted_between_predicate_and_block\":" << probes().cvPreBlockPreempted << ",\"notify_chose_among_several_waiters\":" << probes().notifyChoseAmongSeveral
 	  << ",\"observations\":" << counters.observations << ",\"observed_empty\":" << counters.observedEmptyTrue << ",\"oracle_events_checked\":" << counters.oracleEventsChecked
 	  << ",\"runs_with_overlap\":" << counters.overlapRuns << ",\"mutex_contended\":" << probes().mutexContended << "}"
-	  << ",\"per_object\":[" << counters.perObj[0] << "," << counters.perObj[1] << "]";
+	  << ",\"per_object\":[" << counters.perObj[0] << "," << counters.perObj[1] << "," << counters.perObj[2] << "]";
 	out += o.str();
 }
 
